@@ -1,5 +1,5 @@
 #!/bin/bash
-# Development-time: confirm every collected seeded change in a scratch worktree of /repo's HEAD:
+# Development-time: confirm every seeded change in a scratch worktree of /repo's HEAD:
 # patch applies, repo builds, suite passes with it, its demo fails with it and passes without it.
 # usage: tools/verify_seeds.sh [seed-dir-name ...]   -> writes /var/tmp/seedverify/<name>.result
 . /verif/env.sh
@@ -8,10 +8,10 @@ OUT=/var/tmp/seedverify; mkdir -p $OUT
 WT=/var/tmp/wt-seedverify
 git -C /repo worktree remove --force $WT 2>/dev/null; rm -rf $WT
 git -C /repo worktree add -q --detach $WT HEAD || exit 2
-cd /verif/seeded/_incoming
-names=${@:-$(ls)}
+cd /verif/seeded
+names=${@:-$(ls -d C*)}
 for n in $names; do
-  d=/verif/seeded/_incoming/$n
+  d=/verif/seeded/$n
   patch=$d/patch.diff; [ -f $d/patch.ported.diff ] && patch=$d/patch.ported.diff
   r=$OUT/$n.result; : > $r
   git -C $WT checkout -q -- . ; git -C $WT clean -fdq
